@@ -7,6 +7,7 @@ import (
 	"os"
 	"reflect"
 	"strings"
+	"unicode/utf8"
 
 	openfgav1 "github.com/openfga/api/proto/openfga/v1"
 	"google.golang.org/protobuf/encoding/protojson"
@@ -38,6 +39,37 @@ type c08Case struct {
 	Choices []int `json:"choices,omitempty"`
 	// nested pumping: Pre + Open^n + Inner + Close^n + "\n"
 	Nest *nestCase `json:"nest,omitempty"`
+	// TextBytes / FragBytes carry Text / Frag exactly when they are not valid UTF-8 (JSON strings cannot)
+	TextBytes []byte `json:"text_bytes,omitempty"`
+	FragBytes []byte `json:"fragment_bytes,omitempty"`
+}
+
+func (c c08Case) MarshalJSON() ([]byte, error) {
+	type plain c08Case
+	p := plain(c)
+	if !utf8.ValidString(p.Text) {
+		p.TextBytes = []byte(p.Text)
+	}
+	if !utf8.ValidString(p.Frag) {
+		p.FragBytes = []byte(p.Frag)
+	}
+	return json.Marshal(p)
+}
+
+func (c *c08Case) UnmarshalJSON(b []byte) error {
+	type plain c08Case
+	var p plain
+	if err := json.Unmarshal(b, &p); err != nil {
+		return err
+	}
+	if len(p.TextBytes) > 0 {
+		p.Text = string(p.TextBytes)
+	}
+	if len(p.FragBytes) > 0 {
+		p.Frag = string(p.FragBytes)
+	}
+	*c = c08Case(p)
+	return nil
 }
 
 type nestCase struct {
@@ -946,6 +978,171 @@ func scaledModel(fam string, n int) *ref.Model {
 	return &ref.Model{Schema: "1.1", Types: []ref.TypeDef{{Name: "user"}, doc}}
 }
 
+// ---- raw bytes ---------------------------------------------------------------------------
+
+// rawByteElems: one representative per class of byte sequence a text input can contain beyond the lexeme alphabet: control
+// characters, DEL, stray continuation and lead bytes (invalid UTF-8), overlong and surrogate encodings, a code point beyond
+// U+10FFFF, the byte-order mark, Unicode line separators and spaces, a four-byte character, a lone carriage return, VT.
+var rawByteElems = []string{"\x00", "\x01", "\x1b", "\x7f", "\x80", "\xbf", "\xc3", "\xc3(", "\xc0\xaf", "\xff", "\xfe\xff", "\xef\xbb\xbf",
+	"\xe2\x80\xa8", "\xe2\x80\xa9", "\xc2\x85", "\xc2\xa0", "\xe3\x80\x80", "\xf0\x9f\x98\x80", "\xed\xa0\x80", "\xf4\x90\x80\x80", "\xe2\x80", "\v", "\r", "\b"}
+
+var rawByteDocs = []string{
+	"model\n  schema 1.1\ntype user\ntype doc\n  relations\n    define a: [user, user:*, doc#a with c] or b but not a from p\n    define b: [user]\n    define p: [doc]\ncondition c(x: int, y: list<string>) {\n  x < 1\n}\n",
+	"module m\ntype user\nextend type doc\n  relations\n    define a: [user]\n",
+	"model\n  schema 1.1\ntype user # trailing\n# full line\n  # indented\ntype doc\n",
+}
+
+// hasRawUnlexable: outside comments (and outside documents that hold a string literal) none of these bytes belongs to any
+// token of the lexer grammar; a lone carriage return is a line end and is not judged.
+func hasRawUnlexable(t string) bool {
+	if strings.ContainsAny(t, "\"'") {
+		return false
+	}
+	for _, line := range strings.Split(t, "\n") {
+		tl := strings.TrimLeft(line, " ")
+		if strings.HasPrefix(tl, "#") {
+			continue
+		}
+		if i := strings.Index(line, " #"); i >= 0 {
+			line = line[:i]
+		}
+		for i := 0; i < len(line); i++ {
+			b := line[i]
+			if b >= 0x80 || b == 0x7f || (b < 0x20 && b != '\t' && b != '\r' && b != '\f') {
+				return true
+			}
+		}
+	}
+	return false
+}
+
+// c08RawText: one text with raw bytes through the text entry points.
+func c08RawText(ctx *core.Ctx, t string) {
+	ctx.Count("raw-byte texts", 1)
+	ctx.Flag("c08:raw-bytes")
+	for _, e := range dslEntries {
+		o := c08Call(func() (bool, error) { return e.f(t) })
+		ctx.Eval(1)
+		if !c08Judge(ctx, c08Case{Entry: e.name, Text: t}, o) {
+			return
+		}
+		if e.name == "TransformDSLToProto" && hasRawUnlexable(t) {
+			if o.err == nil {
+				ctx.Violation("syntax-error-not-reported", fmt.Sprintf("text %q contains a byte sequence no token can hold, outside comments, and was accepted", t), c08Case{Entry: e.name, Text: t}, "error", "accepted")
+				return
+			}
+			ctx.Flag("c08:raw-unlexable-rejected")
+		}
+		if e.name == "TransformDSLToProto" && o.err == nil {
+			ctx.Flag("c08:raw-accepted")
+			m, _ := transformer.TransformDSLToProto(t)
+			c08Model(ctx, m, "parsed from "+fmt.Sprintf("%q", t), nil)
+		}
+	}
+}
+
+// c08RawBytes: every byte element inserted at every byte offset of every document prefix and of three complete documents
+// (pairs of elements at every third offset), through the text entry points; the same elements at every offset of a valid JSON
+// model and of a valid manifest; and each element (alone, and followed by a blank, a line end, a comment marker) pumped in
+// every pumping context.
+func c08RawBytes(ctx *core.Ctx) {
+	docs := append(append([]string{}, gen.DSLContexts...), rawByteDocs...)
+	k := 0
+	one := func(t string) {
+		k++
+		if ctx.Mine(k) {
+			c08RawText(ctx, t)
+		}
+	}
+	for _, d := range docs {
+		if ctx.Expired() {
+			ctx.Cap("wall-clock cap in raw-byte insertion")
+			return
+		}
+		for off := 0; off <= len(d); off++ {
+			for _, el := range rawByteElems {
+				one(d[:off] + el + d[off:])
+			}
+			if off%3 == 0 || ctx.Thorough() {
+				for _, e1 := range rawByteElems {
+					for _, e2 := range rawByteElems {
+						one(d[:off] + e1 + e2 + d[off:])
+					}
+				}
+			}
+		}
+	}
+	// JSON and manifest documents
+	js := `{"schema_version":"1.1","type_definitions":[{"type":"user"},{"type":"doc","relations":{"a":{"this":{}}},"metadata":{"relations":{"a":{"directly_related_user_types":[{"type":"user"}]}}}}]}`
+	mod := "schema: '1.2'\ncontents:\n  - a.fga\n  - \"b/c.fga\"\n"
+	for off := 0; off <= len(js); off++ {
+		for _, el := range rawByteElems {
+			k++
+			if !ctx.Mine(k) {
+				continue
+			}
+			t := js[:off] + el + js[off:]
+			ctx.Eval(1)
+			o := c08Call(func() (bool, error) { p, e := transformer.TransformJSONStringToDSL(t); return p != nil, e })
+			c08Judge(ctx, c08Case{Entry: "TransformJSONStringToDSL", Text: t}, o)
+		}
+	}
+	for off := 0; off <= len(mod); off++ {
+		for _, el := range rawByteElems {
+			k++
+			if !ctx.Mine(k) {
+				continue
+			}
+			t := mod[:off] + el + mod[off:]
+			ctx.Eval(1)
+			o := c08Call(func() (bool, error) { p, e := transformer.TransformModFile(t); return p != nil, e })
+			c08Judge(ctx, c08Case{Entry: "TransformModFile", Text: t}, o)
+		}
+	}
+	// pumping
+	n1 := 32
+	if ctx.Thorough() {
+		n1 = 64
+	}
+	base := make([]int64, len(pumpContexts))
+	for _, el := range rawByteElems {
+		for _, suf := range []string{"", " ", "\n", "#", "a"} {
+			fr := el + suf
+			for ci, cx := range pumpContexts {
+				k++
+				if !ctx.Mine(k) {
+					continue
+				}
+				if ctx.Expired() {
+					ctx.Cap("wall-clock cap in raw-byte pumping")
+					return
+				}
+				ctx.Eval(1)
+				if base[ci] == 0 {
+					base[ci], _ = measure(cx.pre + cx.post)
+				}
+				s1, o1 := measure(cx.pre + strings.Repeat(fr, n1) + cx.post)
+				s2, o2 := measure(cx.pre + strings.Repeat(fr, 2*n1) + cx.post)
+				cs := c08Case{Entry: "TransformDSLToProto", Frag: fr, Ctx: ci, N: n1}
+				if !c08Judge(ctx, cs, o1) || !c08Judge(ctx, cs, o2) {
+					continue
+				}
+				s1 -= base[ci]
+				s2 -= base[ci]
+				if s1 < 20000 {
+					continue
+				}
+				exp := math.Log2(float64(s2) / float64(s1))
+				ctx.Flag("c08:raw-pumped")
+				if exp > 2.5 {
+					ctx.Violation("super-quadratic", fmt.Sprintf("fragment %q repeated in context %d: %d steps at n=%d, %d steps at n=%d (growth exponent %.2f > 2.5)", fr, ci, s1, n1, s2, 2*n1, exp),
+						cs, "growth exponent <= 2.5", fmt.Sprintf("%.2f", exp))
+				}
+			}
+		}
+	}
+}
+
 // ---- JSON and YAML texts ------------------------------------------------------------
 
 var jsonTokens = []string{"{", "}", "[", "]", ":", ",", `"schema_version"`, `"type_definitions"`, `"type"`, `"relations"`, `"this"`, `"union"`, `"child"`,
@@ -1145,6 +1342,7 @@ func c08Run(ctx *core.Ctx) {
 	// then cuts the tail of an enumeration, never a whole section
 	c08Faults(ctx)
 	c08JSONYAML(ctx)
+	c08RawBytes(ctx)
 	c08Scaled(ctx)
 	c08Nested(ctx)
 	c08Pump(ctx)
@@ -1184,12 +1382,12 @@ func init() {
 		Assume: []string{
 			"work is measured in instrumented steps (function entries and loop iterations of the repository, the antlr runtime, the generated parser and yaml.v3); built-ins, protobuf and regexp internals are not counted",
 			"asymptotic growth is judged between n and 2n at n = 32 (quick) / 64 (thorough) only",
-			"'a syntax error is always reported' is decided for texts with an unlexable character outside comments and (in C09) for constructed structural violations; arbitrary byte strings beyond the lexeme alphabets are not enumerated",
+			"'a syntax error is always reported' is decided for texts with an unlexable character outside comments and (in C09) for constructed structural violations; byte strings beyond the lexeme alphabets are covered by 24 representative byte sequences (control characters, invalid UTF-8 of every kind, BOM, Unicode separators, astral characters) inserted singly at every offset and pairwise at every third offset of 13 documents, and pumped",
 		},
 		Technique: "bounded exhaustive enumeration of texts and of protobuf fault combinations with a panic guard and a deterministic step-count horizon",
 		Run:       c08Run,
 		Finish: func(r *core.Result) error {
-			for _, f := range []string{"c08:steps-live", "c08:some-error", "c08:some-result", "c08:unlexable-rejected", "c08:fault-enumeration", "c08:pumped", "c08:json-replacement", "c08:module-file-sets", "c08:corpus-mutations", "c08:scaled-families", "c08:scaled-accepted", "c08:scaled-rejected", "c08:start-orders", "c08:nested-pumped", "c08:nested-accepted"} {
+			for _, f := range []string{"c08:steps-live", "c08:some-error", "c08:some-result", "c08:unlexable-rejected", "c08:fault-enumeration", "c08:pumped", "c08:json-replacement", "c08:module-file-sets", "c08:corpus-mutations", "c08:scaled-families", "c08:scaled-accepted", "c08:scaled-rejected", "c08:start-orders", "c08:nested-pumped", "c08:nested-accepted", "c08:raw-bytes", "c08:raw-unlexable-rejected", "c08:raw-accepted", "c08:raw-pumped"} {
 				if !r.Flags[f] {
 					return fmt.Errorf("C08: guard %q never exercised", f)
 				}
@@ -1225,6 +1423,7 @@ func init() {
 				c08Faults(ctx)
 			default:
 				c08Text(ctx, cs.Text)
+				c08RawText(ctx, cs.Text)
 			}
 		},
 	})
